@@ -332,7 +332,7 @@ struct Unit   // one static family pair; caps failure spam per shardable unit (k
 {             // reported (sig,id) pairs does not depend on the sharding
     vh::Ctx& ctx; std::string name; long fails = 0;
     void begin() { fails = 0; }
-    bool capped() const { return fails >= 6; }
+    bool capped() const { return fails >= 3; }
     void fail(std::string const& id, std::string const& sig, std::string const& detail) { ++fails; ctx.fail(id, sig, detail); }
 };
 
